@@ -44,17 +44,33 @@ def body(env, prog, conn):
         return v
 
     env.keep = None  # the previous execution's handle goes away now, not at a random moment
-    coll = Collection(prog["spelled"], UkvCollectionBackend, readonly=prog["ro"], bufsize=BUFS[prog["buf"]], value_encoder=enc)
-    atexit.unregister(coll._backend.flush)
-    # long-lived handle: it outlives the execution (a leaked lock must stay leaked, not be
-    # released by the garbage collector at a moment the scheduler does not control)
-    env.keep = coll
+
+    def construct():
+        c = Collection(prog["spelled"], UkvCollectionBackend, readonly=prog["ro"], bufsize=BUFS[prog["buf"]], value_encoder=enc)
+        atexit.unregister(c._backend.flush)
+        # long-lived handle: it outlives the execution (a leaked lock must stay leaked, not be
+        # released by the garbage collector at a moment the scheduler does not control)
+        env.keep = c
+        return c
+
+    log = []
+    if not prog.get("sched_ctor"):
+        coll = construct()
     conn.send(("ready",))
     msg = conn.recv()
     if msg[0] != "start":
         raise RuntimeError(f"expected start, got {msg}")
     env.active = True
-    log = []
+    if prog.get("sched_ctor"):
+        # the handle is created under the scheduler: two processes may race to create the library
+        try:
+            coll = construct()
+        except BaseException as ex:
+            env.active = False
+            prev = env.prev
+            env.prev = None
+            conn.send(("done", [{"kind": "ctor", "puts": [], "puts_ok": [], "dup_rejected": [], "listed": None, "reads": {}, "exc": type(ex).__name__, "exc_msg": str(ex)[:80], "state_after": "idle", "file_closed_after": True, "fault_fired": False, "queue_after": 0}], prev))
+            return
     for sess in prog["sessions"]:
         log.append(do_session(env, coll, sess))
     env.active = False
@@ -183,7 +199,7 @@ class Bench:
         for wid, w in enumerate(spec):
             sp, cwd = self.spelled(wid, w["spelling"])
             ro = bool(w.get("ro"))
-            progs.append({"lib": str(self.lib), "spelled": sp, "cwd": cwd, "ro": ro, "buf": w["buf"], "sessions": w["sessions"]})
+            progs.append({"lib": str(self.lib), "spelled": sp, "cwd": cwd, "ro": ro, "buf": w["buf"], "sessions": w["sessions"], "sched_ctor": bool(w.get("sched_ctor"))})
         return progs
 
 
@@ -204,6 +220,8 @@ def _val(wid, si, j, seed):
 
 
 def fault_context(spec):
+    if any(w.get("sched_ctor") for w in spec):
+        return "concurrent-construction"
     for w in spec:
         for s in w["sessions"]:
             if s.get("fault"):
@@ -219,6 +237,9 @@ def judge(bench: Bench, spec, x: schedx.Execution):
     must, may, dupvals = {}, {}, {}
     for wid, log in enumerate(logs):
         for si, e in enumerate(log):
+            if e["kind"] == "ctor":
+                out.append((f"constructor-raised[{e['exc']}]", f"worker {wid}: constructing the handle raised {e['exc']}: {e.get('exc_msg')}"))
+                continue
             failed = e["exc"] is not None
             faulted = bool(spec[wid]["sessions"][si].get("fault")) and e["fault_fired"]
             if faulted and spec[wid]["sessions"][si]["fault"][0] == "write":
@@ -286,14 +307,15 @@ def judge(bench: Bench, spec, x: schedx.Execution):
             out.append(("foreign-record", f"record {k!r} was never put"))
     # (c) readers: complete records only, everything committed before they began
     visible = set()
-    sidx = {w: 0 for w in range(bench.n)}
+    # a handle constructed under the scheduler takes (and releases) the write lock once before its sessions
+    sidx = {w: (-1 if spec[w].get("sched_ctor") else 0) for w in range(bench.n)}
     snap = {}
     for ev, wid, mode in x_events(x):
         if ev == "acq":
             snap[(wid, sidx[wid])] = set(visible)
         else:
             si = sidx[wid]
-            if si < len(logs[wid]):
+            if 0 <= si < len(logs[wid]):
                 e = logs[wid][si]
                 # only a session that completed commits its records for later readers; what a
                 # failed session leaves behind is complete-or-absent and may surface later
@@ -443,6 +465,18 @@ def build_fault_spec(ctx, fs, n):
     ]
 
 
+def ctor_specs(ctx, nworkers, spellings):
+    """every worker constructs its (read/write) handle under the scheduler, then runs sessions"""
+    specs = []
+    menu = [("W",), ("W", "R"), ("R", "W"), ("D",)]
+    for combo in itertools.product(menu, repeat=nworkers):
+        spec = []
+        for wid, kinds in enumerate(combo):
+            spec.append({"spelling": spellings[wid % len(spellings)], "buf": ["dflt", "large"][wid % 2], "ro": False, "sched_ctor": True, "sessions": mk_sessions(wid, kinds, ctx.seed)})
+        specs.append(spec)
+    return specs
+
+
 def part_plain(sc, part):
     nworkers, bound, specs = part
     bench = Bench(sc, nworkers, "p")
@@ -516,6 +550,8 @@ def run(ctx):
         ctx.pmap(part_plain, parts, nproc=nproc)
         fss = fault_specs(ctx, ["dflt", "large"])
         ctx.pmap(part_fault, [(1, c) for c in chunks(fss, nproc)], nproc=nproc)
+        specsc = ctor_specs(ctx, 2, list(sp_q))
+        ctx.pmap(part_plain, [(2, 2, c) for c in chunks(specsc, nproc)], nproc=nproc)
         ctx.bound = {"processes": 2, "sessions_total": 4, "preemptions": bound, "fault_family_preemptions": 1, "faults_per_execution": 1, "path_spellings": list(sp_q) + ["rel+sym in the fault family"]}
     else:
         specs2 = plain_specs(ctx, 2, 4, sp2[:2], ["dflt", "large"])
@@ -524,6 +560,8 @@ def run(ctx):
         ctx.pmap(part_plain, [(3, 2, c) for c in chunks(specs3, nproc * 4)], nproc=nproc)
         fss = fault_specs(ctx, ["dflt", "large"])
         ctx.pmap(part_fault, [(2, c) for c in chunks(fss, nproc * 2)], nproc=nproc)
+        ctx.pmap(part_plain, [(2, 3, c) for c in chunks(ctor_specs(ctx, 2, sp2[:2]), nproc)], nproc=nproc)
+        ctx.pmap(part_plain, [(3, 2, c) for c in chunks(ctor_specs(ctx, 3, sp2), nproc * 2)], nproc=nproc)
         ctx.bound = {"processes": "2 (bound 3) and 3 (bound 2)", "sessions_total": "4 / 4", "fault_family_preemptions": 2, "faults_per_execution": 1, "path_spellings": sp2}
 
 
